@@ -7,7 +7,8 @@ from ..core import Failure
 LOGICS = ['PL', 'LTL', 'CTLS', 'CTL']
 POOL = ['p', 'q', 'Ap', 'Xx', 'U1', 'trueish', 'nota', 'or_', 'andy', 'EF', 'AG', '_', 'True',
         'Gp', 'pU', 'Uq', 'R2', 'falsey', 'notp', 'EX', 'AX', 'Fp', 'x_1', 'A_', 'notnot',
-        'truefalse', 'oror', 'UR', 'a9', 'E', 'A', 'X', 'F', 'G', 'U', 'R']
+        'truefalse', 'oror', 'UR', 'a9', 'E', 'A', 'X', 'F', 'G', 'U', 'R', '_A', '_not', 'A1', 'X0', 'G_',
+        'notA', 'andor', 'a' * 70, 'EXp', 'AGEF', 'Uu', 'p_or_q', 'xAx', 'false0', 'true_']
 
 _parsers = {}
 
@@ -171,7 +172,7 @@ def run(ctx):
     ctx.rule = ('formulas of PL, LTL (path formulas and A g), CTL* and CTL (state and path '
                 'formulas; CTL printed through cast_to(CTLS)) over atoms from a pool of identifiers '
                 'that hug every keyword (Ap, Xx, U1, trueish, nota, andy, EF, ...) minus the '
-                'reserved words of the logic (read from Lang.symbols), n-ary and/or of arity 2-4 '
+                'reserved words of the logic (read from Lang.symbols), n-ary and/or of arity 2-6 '
                 'in the random tier.  Oracle: structure(Parser()(str(f))) == tree of f compared by '
                 'the harness, every node of the parsed formula in the logic\'s module; injectivity: '
                 'over each enumerated scope printed forms (CTL* notation and native CTL notation) '
@@ -253,6 +254,6 @@ def widen(t, which):
             me = count[0]
             count[0] += 1
             if me == which and len(kids) < 4:
-                kids = (kids + kids)[:4]
+                kids = (kids + kids + kids)[:4 + which % 3]
         return (t[0],) + kids
     return rec(t)
